@@ -177,10 +177,17 @@ def resolve_unwindset(job):
         return "", []
     chosen = []
     notes = []
+    for fsub, fname, bound in spec:
+        if fsub.startswith("raw:"):
+            # loops of the CPROVER library (memcmp of a slice comparison) are added after --show-loops runs
+            chosen.append("%s:%d" % (fsub[4:], bound))
+            notes.append("%s=%d" % (fsub[4:], bound))
     for lid, f, line in loops_of(job["h"]):
         path = f if os.path.isabs(f) else os.path.normpath(os.path.join(KANI_DIR, f))
         fn = enclosing_fn(path, line)
         for fsub, fname, bound in spec:
+            if fsub.startswith("raw:"):
+                continue
             if fsub.startswith("id:"):
                 # monomorphised std loops (Iterator::any/try_fold/extend instantiated with a closure of the
                 # function under test) are told apart by the closure's path inside the mangled loop id
